@@ -118,6 +118,8 @@ class SccLine:
       self.time_code.add_frames()
 
       if scc_word.value == 0x0000:
+        # only the immediate repeat of a control code is redundant
+        context.previous_word = None
         continue
 
       if scc_word.byte_1 < 0x20:
@@ -129,6 +131,7 @@ class SccLine:
           if context.current_channel is not caption_channel:
             LOGGER.warning("Skip Caption Channel 2 content")
           context.current_channel = caption_channel
+          context.previous_word = None
           continue
 
         context.current_channel = caption_channel
